@@ -33,13 +33,13 @@ theorem argTypes_congr (d f : Derived) (c : Call)
   intro n hn
   exact h n (hn ▸ ha)
 
-theorem register_congr (gen : GenFn) (d f : Derived) (acc : Derived × List Nat) (c : Call)
+theorem register_congr (gen : GenFn) (d f : Derived) (acc : List Fn × List Nat) (c : Call)
     (h : ∀ n, Arg.resultOf n ∈ c.args → d.lookup n = f.lookup n) :
     register gen d acc c = register gen f acc c := by
   unfold register
   rw [argTypes_congr d f c h]
 
-theorem foldlM_congr (gen : GenFn) (d f : Derived) (calls : List Call) (acc : Derived × List Nat)
+theorem foldlM_congr (gen : GenFn) (d f : Derived) (calls : List Call) (acc : List Fn × List Nat)
     (h : ∀ c ∈ calls, ∀ n, Arg.resultOf n ∈ c.args → d.lookup n = f.lookup n) :
     calls.foldlM (register gen d) acc = calls.foldlM (register gen f) acc := by
   induction calls generalizing acc with
@@ -54,15 +54,25 @@ theorem foldlM_congr (gen : GenFn) (d f : Derived) (calls : List Call) (acc : De
 /-- **pass_congr**: a pass only reads, from the file on disk, the signatures of callees whose result
 flows into another derive call. -/
 theorem pass_congr (gen : GenFn) (calls : List Call) (d f : Derived) (h : AgreeOn calls d f) :
-    pass gen d calls = pass gen f calls :=
-  foldlM_congr gen d f calls ([], []) h
+    pass gen d calls = pass gen f calls := by
+  unfold pass registerAll
+  rw [foldlM_congr gen d f calls ([], []) h]
 
-/-- **regen_one_pass**: if `F` is what the current sources generate (a fixpoint of the pass with
-nothing left undefined) and the old file agrees with `F` on every signature that flows into another
-derive call, one run leaves exactly `F`, whatever else the old file contained. -/
-theorem regen_one_pass (gen : GenFn) (calls : List Call) (old F : Derived)
-    (hfix : pass gen F calls = .ok (F, [])) (hne : F ≠ []) (hagree : AgreeOn calls old F) :
-    regen gen calls old = .ok (some F) := by
+/-- **regen_congr**: a run depends on the old file only through the signatures of the callees whose
+result flows into another derive call — whatever else it declares, lacks, or has lost to a cut. -/
+theorem regen_congr (gen : GenFn) (calls : List Call) (old old' : Derived)
+    (h : AgreeOn calls old old') : regen gen calls old = regen gen calls old' := by
+  unfold regen loop
+  rw [pass_congr gen calls old old' h]
+
+/-- **regen_one_pass**: if a pass that reads the file `F` registers the functions `reg` with nothing
+left undefined (in particular: `F = fileOf reg` is what the current sources generate, a fixpoint of the
+pass) and the old file agrees with `F` on every signature that flows into another derive call, one run
+leaves exactly `reg`, whatever else the old file contained. -/
+theorem regen_one_pass (gen : GenFn) (calls : List Call) (old F : Derived) (reg : List Fn)
+    (hfix : pass gen F calls = .ok (reg, [])) (hne : reg ≠ [])
+    (hagree : AgreeOn calls old F) :
+    regen gen calls old = .ok (some reg) := by
   unfold regen loop
   rw [pass_congr gen calls old F hagree, hfix]
   simp [sortStrings, hne, bind, Except.bind]
@@ -71,10 +81,10 @@ theorem regen_one_pass (gen : GenFn) (calls : List Call) (old F : Derived)
 from scratch (which also agrees with `F` when no flowing callee exists in `F`, or more generally
 whenever the empty file agrees) leave the same file. -/
 theorem regen_independent_partial (gen : GenFn) (calls : List Call) (old old' F : Derived)
-    (hfix : pass gen F calls = .ok (F, [])) (hne : F ≠ [])
+    (reg : List Fn) (hfix : pass gen F calls = .ok (reg, [])) (hne : reg ≠ [])
     (h1 : AgreeOn calls old F) (h2 : AgreeOn calls old' F) :
     regen gen calls old = regen gen calls old' := by
-  rw [regen_one_pass gen calls old F hfix hne h1, regen_one_pass gen calls old' F hfix hne h2]
+  rw [regen_one_pass gen calls old F reg hfix hne h1, regen_one_pass gen calls old' F reg hfix hne h2]
 
 /-- a package without flows between derive calls: every old file agrees -/
 theorem agreeOn_of_no_flow (calls : List Call) (d f : Derived)
@@ -86,43 +96,181 @@ or removed, functions renamed) the file left behind never depends on the old one
 truncated. -/
 theorem regen_no_flow (gen : GenFn) (calls : List Call) (old old' : Derived)
     (h : ∀ c ∈ calls, ∀ n, Arg.resultOf n ∉ c.args) :
-    regen gen calls old = regen gen calls old' := by
-  unfold regen loop
-  rw [pass_congr gen calls old old' (agreeOn_of_no_flow calls old old' h)]
+    regen gen calls old = regen gen calls old' :=
+  regen_congr gen calls old old' (agreeOn_of_no_flow calls old old' h)
 
 /-- **regen_removes_when_empty**: when no derive call remains the file is removed. -/
 theorem regen_removes_when_empty (gen : GenFn) (old : Derived) : regen gen [] old = .ok none := by
-  simp [regen, loop, pass, sortStrings, bind, Except.bind, pure, Except.pure]
+  simp [regen, loop, pass, registerAll, sortStrings, bind, Except.bind, pure, Except.pure]
+
+/-! ### the computed form of `AgreeOn` that the driver prints (`agree=`) -/
+
+theorem mem_flowing (calls : List Call) (n : Nat) :
+    n ∈ flowing calls ↔ ∃ c ∈ calls, Arg.resultOf n ∈ c.args := by
+  unfold flowing
+  simp only [List.mem_flatMap, List.mem_filterMap]
+  constructor
+  · rintro ⟨c, hc, a, ha, h⟩
+    refine ⟨c, hc, ?_⟩
+    cases a with
+    | known t => simp at h
+    | resultOf m => simp at h; subst h; exact ha
+  · rintro ⟨c, hc, h⟩
+    exact ⟨c, hc, _, h, rfl⟩
+
+/-- **agreeOnB_iff**: the boolean the driver evaluates is `AgreeOn` -/
+theorem agreeOnB_iff (calls : List Call) (d f : Derived) : agreeOnB calls d f = true ↔ AgreeOn calls d f := by
+  unfold agreeOnB AgreeOn
+  simp only [List.all_eq_true, beq_iff_eq]
+  constructor
+  · intro h c hc n hn
+    exact h n ((mem_flowing calls n).2 ⟨c, hc, hn⟩)
+  · intro h n hn
+    obtain ⟨c, hc, hcn⟩ := (mem_flowing calls n).1 hn
+    exact h c hc n hcn
+
+/-! ### the name table of a pass: the written file is a function of the name -/
+
+/-- the invariant of the registry: no two entries of one plugin share a name -/
+def NamesNodup (reg : List Fn) : Prop := (reg.map fun f => (f.plugin, f.name)).Nodup
+
+theorem setFuncName_nodup (reg reg' : List Fn) (c : Call) (ts : List Nat) (r : Option Nat)
+    (h : NamesNodup reg) (hs : setFuncName reg c ts r = .ok reg') : NamesNodup reg' := by
+  unfold setFuncName at hs
+  split at hs
+  · split at hs
+    · cases hs; exact h
+    · cases hs
+  · split at hs
+    · cases hs
+    · rename_i hany
+      cases hs
+      unfold NamesNodup at *
+      rw [List.map_append, List.nodup_append]
+      refine ⟨h, by simp, ?_⟩
+      intro a ha b hb
+      simp only [List.map_cons, List.map_nil, List.mem_singleton] at hb
+      subst hb
+      intro hab
+      subst hab
+      apply hany
+      rw [List.any_eq_true]
+      obtain ⟨f, hf, hfe⟩ := List.mem_map.1 ha
+      refine ⟨f, hf, ?_⟩
+      simp only [Prod.mk.injEq] at hfe
+      simp [hfe.1, hfe.2]
+
+theorem register_nodup (gen : GenFn) (d : Derived) (acc acc' : List Fn × List Nat) (c : Call)
+    (h : NamesNodup acc.1) (hs : register gen d acc c = .ok acc') : NamesNodup acc'.1 := by
+  unfold register at hs
+  split at hs
+  · cases hs; exact h
+  · split at hs
+    · cases hs
+    · split at hs
+      · cases hs
+      · rename_i reg hreg
+        cases hs
+        exact setFuncName_nodup _ _ _ _ _ h hreg
+
+theorem foldlM_nodup (gen : GenFn) (d : Derived) (calls : List Call) (acc acc' : List Fn × List Nat)
+    (h : NamesNodup acc.1) (hs : calls.foldlM (register gen d) acc = .ok acc') : NamesNodup acc'.1 := by
+  induction calls generalizing acc with
+  | nil => simp [pure, Except.pure] at hs; subst hs; exact h
+  | cons c cs ih =>
+    simp only [List.foldlM_cons, bind, Except.bind] at hs
+    split at hs
+    · cases hs
+    · rename_i a ha
+      exact ih a (register_nodup gen d acc a c h ha) hs
+
+/-- **pass_names_nodup**: a pass never emits two functions of one plugin under one name (same name
+and same types: one function; same name and other types: the run fails with an Add Error), so the
+signature the next pass reads for a callee is well defined. -/
+theorem pass_names_nodup (gen : GenFn) (d : Derived) (calls : List Call) (reg : List Fn) (us : List Nat)
+    (h : pass gen d calls = .ok (reg, us)) : NamesNodup reg := by
+  unfold pass at h
+  split at h
+  · cases h
+  · rename_i reg' us' hr
+    split at h
+    · cases h
+    · cases h
+      exact foldlM_nodup gen d calls ([], []) (reg, us) (by simp [NamesNodup]) hr
 
 /-! ### the full statement is false for the current code: a stale signature that flows -/
 
-/-- `zs := deriveFmap(conv, xs); deriveEqual(zs, ys)`: function 0 = deriveFmap, 1 = deriveEqual;
-types: 1 = func(int) int, 4 = func(int) string, 2 = []int, 5 = []string. -/
+/-- `zs := deriveFmap(conv, xs); deriveEqual(zs, ys)`: function 0 = deriveFmap (plugin 0),
+1 = deriveEqual (plugin 1); types: 1 = func(int) int, 4 = func(int) string, 2 = []int, 5 = []string. -/
 def wCalls : List Call :=
-  [⟨0, [.known 1, .known 2]⟩, ⟨1, [.resultOf 0, .known 2]⟩]
+  [⟨0, 0, 0, [.known 1, .known 2]⟩, ⟨1, 1, 1, [.resultOf 0, .known 2]⟩]
 
-def wGen : GenFn := fun name ts =>
-  match name, ts with
-  | 0, [1, 2] => some 2      -- deriveFmap(func(int) int, []int) []int
-  | 0, [4, 2] => some 5      -- deriveFmap(func(int) string, []int) []string
-  | 1, [a, b] => if a = b then some 0 else none   -- deriveEqual needs identical argument types
-  | _, _ => none
+def wGen : GenFn := fun plugin ts =>
+  match plugin, ts with
+  | 0, [1, 2] => .emits 2      -- deriveFmap(func(int) int, []int) []int
+  | 0, [4, 2] => .emits 5      -- deriveFmap(func(int) string, []int) []string
+  | 1, [a, b] => if a = b then .emits 0 else .addFails   -- deriveEqual needs identical argument types
+  | _, _ => .addFails
 
 /-- the old file was generated when `conv` returned string -/
 def wOld : Derived := [(0, 5), (1, 0)]
 
 theorem regen_stale_witness :
-    regen wGen wCalls [] = .ok (some [(0, 2), (1, 0)]) ∧
+    regen wGen wCalls [] = .ok (some [⟨0, 0, [1, 2], some 2⟩, ⟨1, 1, [2, 2], some 0⟩]) ∧
     regen wGen wCalls wOld = .error "Add Error" := by
+  constructor <;> rfl
+
+/-- a stale signature that the consumer ACCEPTS: `deriveSort(deriveKeys(m))` after the key type of `m`
+changed from string (5 = []string) to int (2 = []int); plugin 2 = keys, 3 = sort. The run succeeds and
+leaves a deriveSort for the old type: it differs from the from-scratch file (and does not type-check). -/
+def sCalls : List Call := [⟨3, 3, 0, [.resultOf 2]⟩, ⟨2, 2, 1, [.known 7]⟩]
+
+def sGen : GenFn := fun plugin ts =>
+  match plugin, ts with
+  | 2, [7] => .emits 2         -- deriveKeys(map[int]string) []int
+  | 2, [_] => .generateFails   -- deriveKeys of a type that is not a map: accepted by Add, refused by Generate
+  | 3, [t] => .emits t         -- deriveSort([]T) []T
+  | _, _ => .addFails
+
+theorem regen_stale_accepted_witness :
+    regen sGen sCalls [] = .ok (some [⟨3, 3, [2], some 2⟩, ⟨2, 2, [7], some 2⟩]) ∧
+    regen sGen sCalls [(2, 5), (3, 5)] = .ok (some [⟨3, 3, [5], some 5⟩, ⟨2, 2, [7], some 2⟩]) := by
   constructor <;> rfl
 
 /-- non-vacuity of `regen_one_pass`: a previous version's file that declared more functions and the
 same flowing signature -/
-example : regen wGen wCalls [(7, 9), (0, 2)] = .ok (some [(0, 2), (1, 0)]) :=
-  regen_one_pass wGen wCalls [(7, 9), (0, 2)] [(0, 2), (1, 0)] rfl (by decide)
+example : regen wGen wCalls [(7, 9), (0, 2)] = .ok (some [⟨0, 0, [1, 2], some 2⟩, ⟨1, 1, [2, 2], some 0⟩]) :=
+  regen_one_pass wGen wCalls [(7, 9), (0, 2)] [(0, 2), (1, 0)] [⟨0, 0, [1, 2], some 2⟩, ⟨1, 1, [2, 2], some 0⟩] rfl (by decide)
     (by intro c hc n hn; simp [wCalls] at hc; rcases hc with rfl | rfl <;> simp at hn <;> subst hn <;> rfl)
 
-example : regen wGen [⟨0, [.known 1, .known 2]⟩] wOld = regen wGen [⟨0, [.known 1, .known 2]⟩] [] :=
+example : regen wGen [⟨0, 0, 0, [.known 1, .known 2]⟩] wOld = regen wGen [⟨0, 0, 0, [.known 1, .known 2]⟩] [] :=
   regen_no_flow wGen _ _ _ (by intro c hc n; simp at hc; subst hc; simp)
+
+/-- a stale signature that the consumer accepts and whose RESULT type is the same: `deriveEqual(zs, zs)`
+with `zs := deriveFmap(conv, xs)`. The run succeeds with the same functions and result types as from
+scratch, but deriveEqual is generated for the stale argument type. -/
+theorem regen_stale_same_results_witness :
+    regen wGen [⟨0, 0, 0, [.known 1, .known 2]⟩, ⟨1, 1, 1, [.resultOf 0, .resultOf 0]⟩] [] =
+      .ok (some [⟨0, 0, [1, 2], some 2⟩, ⟨1, 1, [2, 2], some 0⟩]) ∧
+    regen wGen [⟨0, 0, 0, [.known 1, .known 2]⟩, ⟨1, 1, 1, [.resultOf 0, .resultOf 0]⟩] wOld =
+      .ok (some [⟨0, 0, [1, 2], some 2⟩, ⟨1, 1, [5, 5], some 0⟩]) := by
+  constructor <;> rfl
+
+/-- non-vacuity of `regen_congr`: the old file lost `deriveEqual` and gained an unrelated function -/
+example : regen wGen wCalls [(0, 5), (9, 9)] = regen wGen wCalls wOld :=
+  regen_congr wGen wCalls _ _ (by
+    intro c hc n hn; simp [wCalls] at hc; rcases hc with rfl | rfl <;> simp at hn <;> subst hn <;> rfl)
+
+/-- non-vacuity of `pass_names_nodup` and of the name table: a second call of `deriveFmap` under
+another name for the same types is an Add Error; under the same name it is the same function -/
+example : pass wGen [] (wCalls ++ [⟨7, 0, 2, [.known 1, .known 2]⟩]) = .error "Add Error" := rfl
+example : pass wGen [] (wCalls ++ [⟨0, 0, 2, [.known 1, .known 2]⟩]) =
+    .ok ([⟨0, 0, [1, 2], some 2⟩], [1]) := rfl
+example : agreeOnB wCalls wOld [] = false := rfl
+
+/-- a Generator Error comes after every Add Error: `deriveKeys(xs)` on a slice (accepted by Add) next
+to a `deriveFmap` that Add refuses is an Add Error, alone it is a Generator Error -/
+example : regen sGen [⟨2, 2, 0, [.known 5]⟩] [] = .error "Generator Error" := rfl
+example : regen sGen [⟨2, 2, 0, [.known 5]⟩, ⟨0, 0, 1, [.known 5]⟩] [] = .error "Add Error" := rfl
 
 end Goderive.C07
